@@ -32,6 +32,7 @@ def boxes(quick):
                             out.append(dict(cfg, source='callable'))
                             out.append(dict(cfg, enqueue_fn='always'))
                             out.append(dict(cfg, torn=True))
+                            out.append(dict(cfg, enqueue_fn='raise-once'))
                             if workers >= 2:
                                 out.append(dict(cfg, immortal=[1]))
                                 for efn in ('w0odd', 'w0all', 'parity'):
